@@ -100,6 +100,16 @@ pub open spec fn prev_link(d: Dictionary) -> PrevLink {
     }
 }
 pub open spec fn link_opt(l: PrevLink) -> Option<usize> { match l { PrevLink::At(q) => Some(q), _ => None } }
+// what the loop variable of the /Prev walk must hold when the trailer of the section merged last has /Prev link `l`:
+// nothing if there is no /Prev; else the link, either as stored in the file (`rel`: relative to the header, the header
+// position `start` is added when the section is read) or already as the absolute position start + link.
+pub open spec fn next_is_prev(rel: bool, start: usize, l: PrevLink, next: Option<usize>) -> bool {
+    match l {
+        PrevLink::Malformed => false,
+        PrevLink::NoPrev => next is None,
+        PrevLink::At(q) => if rel { next == Some(q) } else { start + q <= usize::MAX && next == Some((start + q) as usize) },
+    }
+}
 
 // a cross-reference section as read from the file: only its identity matters here (its content is the
 // business of units xreftable / xrefstm); Copy is an artefact of R6 (index loop instead of by-value iteration)
